@@ -102,6 +102,16 @@ func c06Facts(s *source, e *emitter, rel, goName, lean string, calls ...string) 
 	e.stringList(lean, "returns and property-carrying calls of `"+goName+"` in "+rel, out)
 }
 
+// c06FactsOptional is c06Facts for a function that may not exist (a helper introduced by a proposed fix):
+// an absent function yields the empty list, not an extraction error.
+func c06FactsOptional(s *source, e *emitter, rel, goName, lean string, calls ...string) {
+	if s.findFunc(rel, goName) == nil {
+		e.stringList(lean, "`"+goName+"` does not exist in "+rel, nil)
+		return
+	}
+	c06Facts(s, e, rel, goName, lean, calls...)
+}
+
 // c06IndexAssigns emits the source of every assignment whose left side is an index expression (map / slice
 // element): what is stored under which key.
 func c06IndexAssigns(s *source, e *emitter, rel, goName, lean string) {
@@ -218,8 +228,14 @@ func init() {
 		c06Facts(s, e, node, "cacheNode.doGetCache", "doGetCacheFacts", "GetCtx", "processCache")
 		c06Facts(s, e, node, "cacheNode.doTake", "doTakeFacts", "DoEx", "doGetCache", "query", "setCacheWithNotFound", "cacheVal")
 		c06Facts(s, e, node, "cacheNode.processCache", "processCacheFacts", "DelCtx")
-		c06Facts(s, e, node, "cacheNode.setCacheWithNotFound", "setCacheWithNotFoundFacts", "aroundDuration", "Ceil", "SetnxExCtx")
-		c06Facts(s, e, node, "cacheNode.SetWithExpireCtx", "setWithExpireFacts", "aroundDuration", "Ceil", "SetexCtx")
+		c06Facts(s, e, node, "cacheNode.setCacheWithNotFound", "setCacheWithNotFoundFacts", "aroundDuration", "Ceil", "SetnxExCtx", "ttlSeconds")
+		c06Facts(s, e, node, "cacheNode.SetWithExpireCtx", "setWithExpireFacts", "aroundDuration", "Ceil", "SetexCtx", "ttlSeconds")
+		c06FactsOptional(s, e, node, "ttlSeconds", "ttlSecondsFacts", "Ceil")
+		if fd := s.findFunc(node, "ttlSeconds"); fd != nil {
+			e.stringList("ttlSecondsShape", "statement skeleton of `ttlSeconds` in "+node, s.shape(fd))
+		} else {
+			e.stringList("ttlSecondsShape", "`ttlSeconds` does not exist in "+node, nil)
+		}
 		c06Facts(s, e, node, "cacheNode.SetCtx", "setFacts", "aroundDuration", "SetWithExpireCtx")
 		c06Facts(s, e, node, "cacheNode.TakeCtx", "takeFacts", "doTake", "SetCtx")
 		c06Facts(s, e, node, "cacheNode.TakeWithExpireCtx", "takeWithExpireFacts", "aroundDuration", "doTake", "query", "SetWithExpireCtx")
